@@ -16,7 +16,7 @@ ASSUMPTIONS = [
     "state is observed through the public parent/children properties only",
 ]
 GATES = [
-    "mon.C01.deep_chain",
+    "mon.C01.deep_chain", "mon.C01.wide_node",
     "mon.C01.invariant", "outcome.returned", "outcome.TreeError", "outcome.LoopError", "outcome.TypeError", "outcome.Injected",
     "outcome.RecursionError", "move.between_trees", "histories", "mon.C01.insitu_invariant", "insitu.tests_run", "mon.C01.assertion_switch", "C01.env_unset", "C01.env_1",
 ] + ["faulted." + k for k in (
@@ -55,6 +55,9 @@ def run(ctx):
     from . import deepchain
 
     deepchain.run(ctx, "C01")
+    from . import widenode
+
+    widenode.run(ctx, "C01")
     E.Engine(ctx, MONITORS, faults=True).run()
     if ctx.shard == 0:
         import sys
@@ -66,6 +69,11 @@ def run(ctx):
 
 
 def replay(ctx, wit):
+    if wit.get("case", {}).get("wide_node"):
+        from . import widenode
+
+        ctx.case(("replay",))
+        return widenode.run(ctx, "C01")
     if wit.get("case", {}).get("deep_chain"):
         from . import deepchain
 
